@@ -259,6 +259,52 @@ theorem C16_pipeline_ram_independent {N K : Type} [LT N] [DecidableLT N] [Decida
   rw [emitted_pos _ _ _ (chunkSize_pos ws.length (ramFloor r1 seds.length aps.length) _ _),
       emitted_pos _ _ _ (chunkSize_pos ws.length (ramFloor r2 seds.length aps.length) _ _)]
 
+/-- **C16 (existing files, `overwrite`).** In a directory that already holds the files of the indices `existing`
+    (for the same package): with `overwrite=True` the call is the plain call; with the default `overwrite=False`
+    it is the plain call — same files, same table — whenever no existing file belongs to a wavelength inside the
+    requested window (successive calls on disjoint windows), and it refuses (`fileExists`) as soon as one does. -/
+theorem C16_overwrite {N K : Type} [LinearOrder N] [LinearOrder K] (strip trunc : N → N)
+    (ws aps : List K) (seds : List (SedIn N K)) (ref : List N)
+    (hdec : ws.Pairwise (· > ·)) (hne : seds ≠ [])
+    (hperm : (seds.map (fun s => trunc s.name)).Perm (ref.map strip))
+    (hfl : ∀ j, j < ws.length → ∃ fl, rowsAt aps.length (·.flux) seds j = some fl)
+    (her : ∀ j, j < ws.length → ∃ er, rowsAt aps.length (·.err) seds j = some er)
+    (wmin wmax : Option K) (maxRam : Rat) (existing : List Nat) :
+    monoRunIn true existing strip trunc ws aps seds ref wmin wmax maxRam
+      = monoRun strip trunc ws aps seds ref wmin wmax maxRam ∧
+    ((∀ k ∈ existing, ∀ v, ws[k]? = some v → ¬ inClosed wmin wmax v) →
+      monoRunIn false existing strip trunc ws aps seds ref wmin wmax maxRam
+        = monoRun strip trunc ws aps seds ref wmin wmax maxRam) ∧
+    ((∃ k ∈ existing, ∃ v, ws[k]? = some v ∧ inClosed wmin wmax v) →
+      monoRunIn false existing strip trunc ws aps seds ref wmin wmax maxRam = .error .fileExists) := by
+  obtain ⟨res, hres, _, hok, hiff, _⟩ :=
+    C16_pipeline strip trunc ws aps seds ref hdec hne hperm hfl her wmin wmax maxRam
+  refine ⟨?_, ?_, ?_⟩
+  · simp [monoRunIn, hres]
+  · intro hdis
+    have hnone : res.files.any (fun f => existing.contains f.index) = false := by
+      rw [Bool.eq_false_iff]
+      intro hany
+      rw [List.any_eq_true] at hany
+      obtain ⟨f, hf, hc⟩ := hany
+      have hk : f.index ∈ existing := by simpa using hc
+      -- the file exists, so its index is a valid index inside the window
+      have hidx : f.index < ws.length := by
+        have := hok f hf
+        unfold monoFile at this
+        by_contra hge
+        rw [List.getElem?_eq_none (by omega)] at this
+        simp at this
+      have hv : ws[f.index]? = some ws[f.index] := List.getElem?_eq_getElem hidx
+      exact hdis _ hk _ hv ((hiff _ _ hv).mp ⟨f, hf, rfl⟩)
+    simp only [monoRunIn, hres, hnone, Bool.false_eq_true, if_false]
+  · rintro ⟨k, hk, v, hv, hin⟩
+    obtain ⟨f, hf, hfk⟩ := (hiff k v hv).mpr hin
+    have hany : res.files.any (fun f => existing.contains f.index) = true := by
+      rw [List.any_eq_true]
+      exact ⟨f, hf, by simpa [hfk] using hk⟩
+    simp only [monoRunIn, hres, hany, Bool.false_eq_true, if_false, if_true]
+
 /-! ### Non-vacuity (over ℚ / ℕ-named models) -/
 
 /-- five wavelengths stored decreasing; window `[3, 20]` has both ends on tabulated wavelengths -/
